@@ -34,6 +34,7 @@ func init() {
 			{Name: "unactionable-from-chosen-only", File: "guidedremediation/guidedremediation.go", Old: "	res.Vulnerabilities = computeVulnsResult(resolved, allPatches)\n	res.Patches = choosePatches(allPatches, opts.MaxUpgrades, opts.NoIntroduce)", New: "	res.Patches = choosePatches(allPatches, opts.MaxUpgrades, opts.NoIntroduce)\n	res.Vulnerabilities = computeVulnsResult(resolved, res.Patches[:0])", Rule: "D5-unactionable", Site: "doStrategy"},
 			{Name: "fixable-skips-introducing-patches", File: "guidedremediation/guidedremediation.go", Old: "	for _, p := range allPatches {\n		for _, v := range p.Fixed {", New: "	for _, p := range allPatches {\n		if len(p.Introduced) > 0 {\n			continue\n		}\n		for _, v := range p.Fixed {", Rule: "D5-unactionable", Site: "computeVulnsResult"},
 			{Name: "choose-ignores-nointroduce", File: "guidedremediation/guidedremediation.go", Old: "		if noIntroduce && len(patch.Introduced) > 0 {\n			continue\n		}\n", New: "", Rule: "D3-update-is-diff", Site: "choosePatches"},
+			{Name: "filter-with-private-options-copy", File: "guidedremediation/internal/remediation/remediation.go", Old: "	filteredVulns = slices.DeleteFunc(filteredVulns, func(v resolution.Vulnerability) bool { return !MatchVuln(*opts, v) })\n	return ResolvedGraph{", New: "	matchOpts := *opts\n	filteredVulns = slices.DeleteFunc(filteredVulns, func(v resolution.Vulnerability) bool { return !MatchVuln(matchOpts, v) })\n	return ResolvedGraph{", Rule: "D1-one-view", Site: "ResolveGraphVulns"},
 		},
 		Neutral: c12Neutral,
 	})
@@ -185,18 +186,25 @@ func c12View(p *Prog, r *Report) {
 			okO := false
 			if u, isU := c.Call.Args[0].(*ssa.UnOp); isU && u.Op == token.MUL {
 				root := u.X
+				loads := 1
 				if u2, ok := root.(*ssa.UnOp); ok && u2.Op == token.MUL {
 					root = u2.X // load of the captured variable
+					loads = 2
 				}
 				switch x := root.(type) {
 				case *ssa.Parameter:
-					okO = isOptsPtr(x.Type())
+					okO = isOptsPtr(x.Type()) && loads == 1
 				case *ssa.FreeVar:
-					okO = isOptsPtr(x.Type()) || isOptsPtrPtr(x.Type())
+					// a captured pointer variable is a **Options cell read with two loads; a single load
+					// of a *Options free variable reads a captured local *copy* of the options
+					okO = loads == 2 && isOptsPtrPtr(x.Type())
+					if okO {
+						okO = freeVarIsParamCell(fnn, x)
+					}
 				case *ssa.Alloc:
 					// spilled parameter
 					ss := storesTo(x)
-					if len(ss) == 1 {
+					if len(ss) == 1 && loads == 2 {
 						if prm, ok := ss[0].(*ssa.Parameter); ok {
 							okO = isOptsPtr(prm.Type())
 						}
@@ -941,4 +949,37 @@ func derivesFromParamField(v ssa.Value, prm *ssa.Parameter, field string) bool {
 		return false
 	}
 	return rec(v, 0, false)
+}
+
+
+// freeVarIsParamCell: the free variable fv of closure h is bound to the cell a parameter of the
+// enclosing function was spilled to (and that cell is never reassigned).
+func freeVarIsParamCell(h *ssa.Function, fv *ssa.FreeVar) bool {
+	par := h.Parent()
+	if par == nil {
+		return false
+	}
+	res := false
+	for _, pf := range withAnon(par) {
+		forEachInstr(pf, func(_ *ssa.BasicBlock, _ int, in ssa.Instruction) {
+			mc, ok := in.(*ssa.MakeClosure)
+			if !ok || mc.Fn != ssa.Value(h) {
+				return
+			}
+			for i, x := range h.FreeVars {
+				if x != fv {
+					continue
+				}
+				if al, ok := mc.Bindings[i].(*ssa.Alloc); ok {
+					ss := storesTo(al)
+					if len(ss) == 1 {
+						if _, isP := ss[0].(*ssa.Parameter); isP {
+							res = true
+						}
+					}
+				}
+			}
+		})
+	}
+	return res
 }
